@@ -96,6 +96,23 @@ class installed:
                 return ops.HANDLERS["randint"](self._randint, a, k)
             return self._randint(*a, **k)
         torch.randint = randint
+        # the same for Tensor methods that take a Number argument: a symbolic scalar (result of .item()) is handed to the op model directly
+        self._tensor_methods = {}
+        from .core import SymScalar, Ctx as _Ctx
+
+        def wrap(name):
+            orig = getattr(torch.Tensor, name)
+
+            def method(self_, *a, **k):
+                if _Ctx.cur is not None and any(isinstance(v, SymScalar) for v in list(a) + list(k.values())):
+                    return ops.HANDLERS[name](orig, (self_,) + a, k)
+                return orig(self_, *a, **k)
+            return orig, method
+        for name in ("new_full", "fill_", "masked_fill", "masked_fill_"):
+            if name in ops.HANDLERS:
+                orig, method = wrap(name)
+                self._tensor_methods[name] = orig
+                setattr(torch.Tensor, name, method)
         # dtype / device conversions of modules create new parameter objects (so a converted symbolic parameter gets its new dtype)
         self._ow = torch.__future__.get_overwrite_module_params_on_conversion()
         torch.__future__.set_overwrite_module_params_on_conversion(True)
@@ -111,6 +128,8 @@ class installed:
     def __exit__(self, *a):
         import torch
         torch.randint = self._randint
+        for name, orig in self._tensor_methods.items():
+            setattr(torch.Tensor, name, orig)
         torch.__future__.set_overwrite_module_params_on_conversion(self._ow)
         for m, k, v in self.saved:
             setattr(m, k, v)
